@@ -122,6 +122,9 @@ class Cadence(collections.abc.MutableSequence):
         if isinstance(i, slice):
             return self.__class__(self.frames[i])
         elif isinstance(i, (list, np.ndarray, tuple)):
+            if isinstance(i, tuple):
+                # A tuple would be read by numpy as a multi-dimensional index
+                i = list(i)
             return self.__class__(np.array(self.frames)[i])
         else:
             return self.frames[i]
@@ -247,16 +250,21 @@ class OrderedCadence(Cadence):
 
     def __setitem__(self, i, v):
         self._check(v)
+        # Resolve the position as a list would, so that the label follows it
         if i < 0:
             i = len(self) + i
+        if not 0 <= i < len(self):
+            raise IndexError("Cadence assignment index out of range")
         if "order_label" not in v.metadata:
             v.add_metadata({"order_label": self.order[i]})
         self.frames[i] = v
 
     def insert(self, i, v):
         self._check(v)
+        # Clamp the position as list.insert does, so that the label follows it
         if i < 0:
             i = len(self) + i
+        i = min(max(i, 0), len(self))
         if "order_label" not in v.metadata:
             v.add_metadata({"order_label": self.order[i]})
         self.frames.insert(i, v)
